@@ -492,6 +492,23 @@ def project_test(obs, lay, args):
     return {"files": files, "head": [h for h in head if h.strip()], "rc": obs.rc, "crashed": obs.crashed}
 
 
+def binding_demo(jobs):
+    """Self-check of the binding (BUILD_BINDING_DEMO=prediction): the predicted outcome of ONE case
+    is altered before the comparison -- the run must end in a VIOLATION."""
+    if os.environ.get("BUILD_BINDING_DEMO") != "prediction" or not jobs:
+        return
+    # a case on which no open deviation takes effect (otherwise the code's behaviour is a recorded finding)
+    clean = [j for j in jobs if not any(dc["fired"] for dc in (j[2] or []))]
+    case = clean[len(clean) // 2][1]
+    for rnd in case["expect"]:
+        for e in rnd["files"]:
+            e["okay"] = not e["okay"]
+            e["pass"] = not e["pass"]
+            e["clss"] = [] if e["okay"] else ["UserFail"]
+        rnd["exit"] = 1 - rnd["exit"]
+    C.log("[binding demo] altered the prediction of one case")
+
+
 def require_nonvacuous(tag, counts):
     """Every class of case the check is meant to exercise must occur in the run."""
     missing = sorted(k for k, v in counts.items() if not v)
@@ -566,6 +583,13 @@ def validate_traces(gd, runs, nf, deviations, tag, timeout=900):
         return True, {"events": 0, "runs": 0}
     path = os.path.join(gd, "trace_%s.ndjson" % tag)
     n = 0
+    if os.environ.get("BUILD_BINDING_DEMO") == "trace":
+        # self-check: one boolean field of one recorded event is flipped -- the trace must be rejected there
+        runs = [(c, [dict(e) for e in evs]) for c, evs in runs]
+        victim = [e for _, evs in runs[len(runs) // 2:] for e in evs if any(isinstance(v, bool) for v in e.values())][0]
+        k = [k for k, v in victim.items() if isinstance(v, bool)][0]
+        victim[k] = not victim[k]
+        C.log("[binding demo] flipped %s of one %s event" % (k, victim["ev"]))
     with open(path, "w") as f:
         for case, evs in runs:
             f.write(json.dumps(reset_record(case)) + "\n")
